@@ -38,9 +38,11 @@ ASSUMPTIONS = [
     "quantized_ulaw and bernoulli document no surrogate: finiteness of the gradient only",
     "stochastic_binary/ternary in learning phase 1 document a plain straight-through "
     "gradient (identity); in phase 0 they are binary/ternary",
-    "binary(use_stochastic_rounding=True) is generated in learning phase 1 only (its inference "
-    "path raises, C08-KF2) with rank>=2 tensors whose channels all contain a non-zero element "
-    "(all-zero channel gives NaN, C08-KF3): identity for constant/auto alpha; for alpha=None "
+    "binary(use_stochastic_rounding=True): in learning phase 0 it is plain binary; in learning "
+    "phase 1 random tensors have rank>=2 and every channel contains a normal non-zero element, "
+    "while channels that are all zero / all subnormal are exercised only by two deterministic "
+    "probes (C06-KF3: NaN gradient there, signature region=zero_channel; a NaN anywhere else has "
+    "region=other); phase 1 oracle: identity for constant/auto alpha; for alpha=None "
     "any value of 1-tanh^2 on [x-f/8, x+f/8], f=2*min(channel max|x|,1) <= 2 (tanh' is taken at "
     "the randomly rounded point); the maximal element(s) of a channel with max|x|<=1 are only "
     "checked for finiteness (f depends on them, an undocumented extra gradient term)",
@@ -57,6 +59,7 @@ _REQ = _CLS + ["lattice", "hyp", "both_sides", "clipped_region", "unclipped_regi
 REQUIRED_LABELS = {"quick": _REQ, "thorough": _REQ}
 
 TOL = 1e-5
+MIN_NORMAL = 1.1754943508222875e-38   # smallest normal float32; TF flushes smaller values to zero
 
 
 def family(cfg):
@@ -169,22 +172,48 @@ def evaluate(case):
   x64 = x.astype(np.float64)
   r64 = r.astype(np.float64)
   ref = R.reference(cfg, x64, qs)
+  nonfinite_known = None
   if g is None:
     g64 = None
   else:
     g64 = g.astype(np.float64).reshape(shape)
     fin = np.isfinite(g64)
     if not fin.all():
-      idx = np.argwhere(~fin)
-      i = int(np.ravel_multi_index(tuple(idx[0]), shape))
-      fails.append(("nonfinite_gradient", dict(base),
-                    "x=%r grad=%r" % (x.reshape(-1)[i], g.reshape(-1)[i]), i))
-      return fails, labels, False
+      if base["family"] == "stochastic_rounding" and cfg["cls"] == "binary" and base["phase"] == 1:
+        # region of each non-finite element: is every element of its channel
+        # (last axis; the whole tensor for rank 1) zero or subnormal?
+        tiny = np.abs(x64) < MIN_NORMAL
+        ax = tuple(range(x.ndim - 1)) if x.ndim > 1 else None
+        zc = np.broadcast_to(np.all(tiny, axis=ax, keepdims=True), shape)
+        seen_r = set()
+        for i in np.flatnonzero(~fin.reshape(-1)):
+          region = "zero_channel" if zc.reshape(-1)[i] else "other"
+          if region in seen_r:
+            continue
+          seen_r.add(region)
+          labels.append("nonfinite:" + region)
+          fails.append(("nonfinite_gradient", dict(base, region=region),
+                        "x=%r grad=%r (channel max|x|=%r)" % (
+                            x.reshape(-1)[i], g.reshape(-1)[i],
+                            float(np.broadcast_to(np.max(np.abs(x64), axis=ax, keepdims=True), shape).reshape(-1)[i])), int(i)))
+        if seen_r != {"zero_channel"}:
+          return fails, labels, False
+        # go on comparing the elements of the other channels
+        nonfinite_known = ~fin
+        g64 = np.where(fin, g64, 0.0)
+      else:
+        idx = np.argwhere(~fin)
+        i = int(np.ravel_multi_index(tuple(idx[0]), shape))
+        fails.append(("nonfinite_gradient", dict(base),
+                      "x=%r grad=%r" % (x.reshape(-1)[i], g.reshape(-1)[i]), i))
+        return fails, labels, False
   if ref["kind"] == "finite_only":
     labels.append("finite_only")
     return fails, labels, bool((x64 < 0).any() and (x64 > 0).any())
 
   d, near, skip = ref["d"], ref["near"], ref["skip"]
+  if nonfinite_known is not None:
+    skip = skip | nonfinite_known
   exp = r64 * d
   tol = TOL * np.maximum(1.0, np.abs(r64))
   live = (~near) & (~skip) & (np.abs(d) > 1e-6)
